@@ -33,6 +33,7 @@ func runC10(c *Ctx) {
 	runDialFailsWhileAnotherDialerRegisters(c)
 	runWsHandlerModeClose(c)
 	runWsListenerQueue(c)
+	runInprocRendezvous(c)
 	runWsAcceptCloseRace(c)
 	defer func() { postCloseOps = false }()
 	n := 12
